@@ -203,6 +203,54 @@ Section ROProofs.
   Theorem ro_release_touches_only_input now x st st' r id :
     a_apply now rc (ARemFin (ns, tin, x) [cname]) st = (st', r) -> st_get (ns, tout, id) st' = st_get (ns, tout, id) st.
   Proof. intros Ea. eapply r_remfin_frame; [exact Ea|]. apply ko_kin. Qed.
+  (* what the handler may write: a worker step changes at most one key - the input itself (finalizer calls) or the
+     dependent it is handling, which the listing showed as unowned; and a dependent disappears only by a Destroy with the
+     empty owner, which the store grants only for an unowned resource without finalizers *)
+  Lemma r_addfin_frame now x s s' r :
+    a_apply now rc (AAddFin (ns, tin, x) [cname]) s = (s', r) ->
+    forall k', key_eqb k' (ns, tin, x) = false -> st_get k' s' = st_get k' s.
+  Proof.
+    unfold a_apply. rewrite r_fin_in.
+    destruct (st_get (ns, tin, x) s) as [cur|] eqn:Hk; [|intros H; inversion H; subst; reflexivity].
+    destruct (s_uwc now (ns, tin, x) (MAddFin [cname]) (r_owner cur) None s) as [s1 r1] eqn:Eu.
+    destruct (s_uwc_shape _ _ _ _ _ _ _ _ Eu) as [[Es [e [Er _]]] | [[Es [c [n [_ [_ [_ Er]]]]]] | [c [n [w [_ [_ [_ [_ [Er [_ Hg]]]]]]]]]]];
+      subst r1; intros H; inversion H; subst; try reflexivity.
+    intros k' Hk'. rewrite Hg, Hk'. reflexivity.
+  Qed.
+
+  Definition ro_target (x : atom) (pc : rpc) : key :=
+    match pc with
+    | RTeardown o _ _ | RDestroy o _ _ => (ns, tout, r_id o)
+    | _ => (ns, tin, x)
+    end.
+
+  Theorem ro_step_touches_one_key now x s k' :
+    key_eqb k' (ro_target x (rs_pc s)) = false ->
+    st_get k' (rs_store (ro_step x s (RStep now))) = st_get k' (rs_store s).
+  Proof.
+    destruct s as [st pc]. unfold CleanupRO.ro_step, ro_target. cbn [rs_store rs_pc].
+    destruct pc as [|inp|o todo a|o todo a| | |b]; cbn [ro_request]; intros Hk.
+    - unfold a_apply, check_read, rctrl; simpl. rewrite !N.eqb_refl. simpl.
+      destruct (is_output _ tin || true) eqn:E; [|rewrite orb_true_r in E; discriminate].
+      destruct (st_get (ns, tin, x) st); reflexivity.
+    - rewrite r_list_out. reflexivity.
+    - destruct (a_apply now rc _ st) as [st' r] eqn:Ea. cbn [rs_store]. eapply r_teardown_frame; eassumption.
+    - destruct (a_apply now rc _ st) as [st' r] eqn:Ea. cbn [rs_store].
+      destruct (r_destroy_spec _ _ _ _ _ Ea) as [Fr _]. apply Fr. exact Hk.
+    - destruct (a_apply now rc _ st) as [st' r] eqn:Ea. cbn [rs_store]. eapply r_remfin_frame; eassumption.
+    - destruct (a_apply now rc _ st) as [st' r] eqn:Ea. cbn [rs_store]. eapply r_addfin_frame; eassumption.
+    - reflexivity.
+  Qed.
+
+  Theorem ro_destroy_only_unowned_without_finalizers now id s s' :
+    a_apply now rc (ADestroy (ns, tout, id) (Some 0)) s = (s', AOk) ->
+    exists cur, st_get (ns, tout, id) s = Some cur /\ r_owner cur = 0 /\ r_fins cur = [].
+  Proof.
+    unfold a_apply. rewrite r_is_out. unfold apply. destruct (st_get (ns, tout, id) s) as [cur|] eqn:Hk; [|intros H; inversion H].
+    destruct (N.eqb_spec (r_owner cur) 0) as [Eo|Eo]; simpl; [|intros H; inversion H].
+    destruct (r_fins cur) eqn:Ef; [|intros H; inversion H]. intros _. exists cur. auto.
+  Qed.
+
 End ROProofs.
 
 (* non-vacuity: input 7 with the finalizer and one unowned dependent (label 9 = 7) plus an owned one; the input is torn
